@@ -50,7 +50,17 @@ func H_C16_history_vs_model() {
 			id := nondetString()
 			verifAssume(id != "")
 			raw := nondetString()
-			es, ei := []byte{7}, []byte{8}
+			// per-event salt / info take precedence when the event carries them; otherwise the filter's stay in force
+			var es, ei []byte
+			wantS, wantI := salt, info
+			if nondetBool() {
+				es = []byte{7}
+				wantS = es
+			}
+			if nondetBool() {
+				ei = []byte{8}
+				wantI = ei
+			}
 			out, err := ef.Process(ctx, newEvent(&evPayload{id: id, salt: es, info: ei, Tok: raw}))
 			if err != nil || out == nil {
 				return
@@ -64,7 +74,7 @@ func H_C16_history_vs_model() {
 			if err != nil {
 				return
 			}
-			verifAssert(p.Tok == refHmac(ew.(*aead.Wrapper), es, ei, []byte(raw)), "C16.history.event-hmac-under-derived-wrapper-and-event-salt")
+			verifAssert(p.Tok == refHmac(ew.(*aead.Wrapper), wantS, wantI, []byte(raw)), "C16.history.event-hmac-under-derived-wrapper-and-salt-in-force")
 		case 2, 3:
 			k := symLen(1, 2)
 			var nw *aead.Wrapper
